@@ -41,6 +41,7 @@ def ans_states(ctx, laws, mode, widths=None):
 @prop("C01")
 def c01(ctx):
     ans_states(ctx, ["TypeInv", "StateInv", "LawPopAfterPush", "LawImportExport"], "c01")
+    ctx.require("batch_forms")
 
 
 @prop("C06")
